@@ -386,6 +386,8 @@ func morassRunWorkOnce(w mWork, watchdog time.Duration) string {
 					}
 				case 'c':
 					tok = morassErrKind(m.Clear()) + "/-"
+				case 'x':
+					tok = morassErrKind(m.Push(mOther("x"))) + "/-"
 				default:
 					panic("morass: bad op " + op)
 				}
